@@ -10,5 +10,6 @@ import (
 	_ "verifharness/props/c08"
 	_ "verifharness/props/c09"
 	_ "verifharness/props/c10"
+	_ "verifharness/props/c11"
 	_ "verifharness/props/c12"
 )
